@@ -155,6 +155,8 @@ type Path struct {
 	clock     *Term
 	extra     map[string]any
 	fnSteps   map[*ssa.Function]int
+	makeCap   int
+	pcSet     map[int]bool
 }
 
 func (p *Path) unsupported(msg string) pathAbort {
@@ -216,7 +218,55 @@ func (p *Path) assertPC(c *Term) {
 		return
 	}
 	p.pc = append(p.pc, c)
+	if p.pcSet == nil {
+		p.pcSet = map[int]bool{}
+	}
+	p.pcSet[c.id] = true
+	if c.op == OAnd {
+		for _, a := range c.args {
+			p.pcSet[a.id] = true
+		}
+	}
 	p.w.solver.Assert(p.tb, c)
+}
+
+// known decides c syntactically from the asserted literals (1 true, 0 false, -1 unknown).
+func (p *Path) known(c *Term) int {
+	if p.pcSet[c.id] {
+		return 1
+	}
+	if p.pcSet[p.tb.Not(c).id] {
+		return 0
+	}
+	if c.op == OAnd {
+		all := true
+		for _, a := range c.args {
+			if p.pcSet[p.tb.Not(a).id] {
+				return 0
+			}
+			if !p.pcSet[a.id] {
+				all = false
+			}
+		}
+		if all {
+			return 1
+		}
+	}
+	if c.op == OOr {
+		none := true
+		for _, a := range c.args {
+			if p.pcSet[a.id] {
+				return 1
+			}
+			if !p.pcSet[p.tb.Not(a).id] {
+				none = false
+			}
+		}
+		if none {
+			return 0
+		}
+	}
+	return -1
 }
 
 func (e *Engine) countQuery(kind string) {
@@ -250,6 +300,9 @@ func (p *Path) branch(c *Term) bool {
 	}
 	if c.IsFalse() {
 		return false
+	}
+	if k := p.known(c); k >= 0 {
+		return k == 1
 	}
 	if p.pos < len(p.prefix) {
 		d := p.prefix[p.pos]
@@ -419,6 +472,23 @@ func (e *Engine) Run() {
 		})
 		defer timer.Stop()
 	}
+	stopProgress := make(chan struct{})
+	defer close(stopProgress)
+	go func() {
+		t := time.NewTicker(15 * time.Second)
+		defer t.Stop()
+		t0 := time.Now()
+		for {
+			select {
+			case <-stopProgress:
+				return
+			case <-t.C:
+				e.mu.Lock()
+				fmt.Fprintf(os.Stderr, "  [%4.0fs] paths=%d queue=%d queries=%d violations=%d inconclusive=%d\n", time.Since(t0).Seconds(), e.res.Paths, len(e.queue), atomic.LoadInt64(&e.res.Queries), len(e.res.Violations), len(e.res.Inconclusive))
+				e.mu.Unlock()
+			}
+		}
+	}()
 	var wg sync.WaitGroup
 	for i := 0; i < e.cfg.Workers; i++ {
 		wg.Add(1)
@@ -467,6 +537,9 @@ func (e *Engine) Run() {
 }
 
 func (e *Engine) inconclusive(msg string) {
+	if os.Getenv("GOSYM_DEBUG") != "" {
+		fmt.Fprintln(os.Stderr, "INCONCLUSIVE:", msg)
+	}
 	e.mu.Lock()
 	if len(e.res.Inconclusive) < 50 {
 		e.res.Inconclusive = append(e.res.Inconclusive, msg)
